@@ -17,6 +17,8 @@ def routines(w, S, R):
     for f in sorted(w.handler_reach("Decsc")):
         if any(p[:2] == ("arg1", sc) and len(p) == 3 for ps in E.stmt_writes[f].values() for p in ps):
             save = f
+        elif any(p == ("arg1", sc) and WD.strip_names(t)[0] == "adt" for f2, pt, p, t in w.assign_sites({f}, lambda p: p == ("arg1", sc))):
+            save = f                  # the context is built as one struct literal
     for f in sorted(w.handler_reach("Decrc")):
         if any(p[:2] == ("arg1", sc) and len(p) == 3 for ps in E.stmt_reads[f].values() for p in ps):
             restore = f
@@ -81,10 +83,17 @@ def _run(ctx, w, embedded=False):
     smap = {}
     for fn, pt, p, t in w.assign_sites({save}, lambda p: p[:2] == ("arg1", sc) and len(p) == 3):
         smap.setdefault(p[2], []).append(WD.strip_names(t))
+    whole = False
+    for fn, pt, p, t in w.assign_sites({save}, lambda p: p == ("arg1", sc)):
+        t = WD.strip_names(t)
+        if t[0] == "adt" and len(t) >= 5 and len(t[3]) == len(t[4]):
+            whole = whole or ("arg1", sc) in must
+            for nm, op in zip(t[3], t[4]):
+                smap.setdefault(nm, []).append(op)
     cols_t = ("load", ("arg1", R["cols"]))
     live_of = {}
     for f in ctx_fields:
-        ok = ("arg1", sc, f) in must and len(smap.get(f, [])) == 1
+        ok = (("arg1", sc, f) in must or whole) and len(smap.get(f, [])) == 1
         t = smap.get(f, [None])[0]
         src = None
         if ok:
